@@ -564,3 +564,20 @@ PROPS['C04']['obligations'] += [
 ]
 PROPS['C04']['outside'] = 'more than one preemption; three concurrent calls; pre-states other than the stated one'
 PROPS['C04']['encoded'] += ['SQLDataStore.* (thorough tier)']
+
+
+_C01_MENU = ['CreateStudy', 'SetInactive', 'SetActive', 'DeleteStudy', 'CreateTrial', 'Suggest', 'CompleteNewest', 'AddMeasurement1',
+             'StopTrial1', 'DeleteTrial1', 'CompleteTrial1NoFinal', 'SetCompleted']
+PROPS['C01']['obligations'] += [
+    O('C01.history_%d' % i, 'harness.c01_history', 'history', 200, 600,
+      'histories through the public API on one long-lived servicer (CreateStudy, Suggest, then 4 calls starting with %s): '
+      'every response and the stored state equal the reference model after every call' % n,
+      '12^3 continuations per first call; RAM datastore', env={'VERIF_SLICE': str(i)}, no_validate=True)
+    for i, n in enumerate(_C01_MENU)
+] + [
+    O('C01.history_sql_%d' % i, 'harness.c01_history', 'history', None, 900,
+      'same histories on the SQL datastore, first call %s' % n, '12^3 continuations',
+      env={'VERIF_SLICE': str(i), 'VERIF_C01_SQL': '1'}, no_validate=True)
+    for i, n in enumerate(_C01_MENU)
+]
+PROPS['C01']['outside'] = 'histories longer than 6 calls; parameter payloads beyond one parameter'
